@@ -183,6 +183,21 @@ CHECKS['C12'] = dict(category='proof', design_ref='DESIGN.md §7 C12',
           "with consistent volumes, arguments are not written; only ValueError can be raised, and each request class "
           "accepts some input."))
 
+CHECKS['C05'] = dict(category='proof', design_ref='DESIGN.md §7 C05, §8 B-C05-n',
+    technique='contract-based deductive verification: ast->z3 VC generation on the real create_solution (matrix assembly with numpy zeros/identity/roll modelled exactly on concrete shapes, linalg.solve as an axiom), callees Container.__init__ / _transfer through their verified contracts; QF_NRA obligations',
+    note=COMMON_NOTE + (" Bounded in the number of solutes: n = 1 complete, n = 2 for three argument shapes (n = 3 one "
+                        "case in the thorough tier); for each n all numeric inputs and physical constants are symbolic. "
+                        "numpy.linalg.solve is the trusted axiom T3; LinAlgError is a ValueError subclass, so singular "
+                        "argument combinations count as refusals. The refusal side is `only ValueError` plus `some request "
+                        "of each class is accepted`. Tolerance 1e-6 relative (and the library's own 1e-6 residual test "
+                        "for over-determined rows)."),
+    text=("For solids, liquids and enzymes as solutes, each pair of {concentration, quantity, total_quantity}, "
+          "representative concentration unit pairs (all 9 in thorough), quantity and total units, pure-substance and "
+          "container solvents: at every normal return the solution contains exactly the named solutes and the solvent "
+          "in positive amounts, meets each stated concentration in its own unit, each solute quantity and the total "
+          "quantity; with a container solvent the depleted container is a uniform remainder and nothing is lost; a "
+          "displayed (rounded) value never drives a state change; only ValueError can be raised."))
+
 NOT_YET = "check not built yet in this round (under construction; not claimed)"
 NOT_APPLICABLE = {}
 
